@@ -378,7 +378,10 @@ pub fn check(c: &TamperCase, ctx: &mut CaseCtx) -> Result<(), Fail> {
         Ok(now) => block_level_verify(&node, &now).is_err(),
         Err(_) => true,
     };
-    if !bl {
+    // pairwise block verification checks a block against its predecessor, so it cannot cover the
+    // genesis block's own content; integrity verification of the chain (verify(), above) is what the
+    // property states
+    if !bl && where_ != "genesis" {
         ctx.fail(format!("tamper:{class}:{where_}:block-level-undetected"), "verify() fails but every adjacent pair passes Block::verify_chain + verify_signature")?;
     }
     Ok(())
